@@ -5,7 +5,8 @@ import re, os
 root = os.path.dirname(os.path.dirname(os.path.abspath(__file__)))
 props = open(os.path.join(root, "spec", "Props.tla")).read()
 steps = re.findall(r"^(C\d+_\w+)_Step\s*==", props, flags=re.M)
-lines = ["T_%s == [][NotReset => %s_Step]_tvars" % (s, s) for s in steps]
+tsteps = set(re.findall(r"^(C\d+_\w+)_TStep\s*==", props, flags=re.M))      # trace-only variants
+lines = ["T_%s == [][NotReset => %s_%s]_tvars" % (s, s, "TStep" if s in tsteps else "Step") for s in steps]
 p = os.path.join(root, "spec", "TraceEco.tla")
 t = open(p).read()
 a, b = "\\* BEGIN GENERATED STEP WRAPPERS", "\\* END GENERATED STEP WRAPPERS"
